@@ -24,9 +24,9 @@ from vlib import hx, hxl, cps
 ID = 'C13'
 COMPONENTS = ['import']
 THEOREMS = ['C13_search_order', 'C13_search_none', 'C13_importer_dir_first', 'C13_rightmost_J_wins',
-            'C13_absolute_bypass', 'C13_cache_by_canonical', 'C13_thisfile_is_as_loaded',
+            'C13_absolute_bypass', 'C13_cache_by_canonical', 'C13_loaded_once', 'C13_evaluated_once', 'C13_thisfile_is_as_loaded',
             'C13_missing_is_import_error_at_site', 'C13_unreadable_is_import_error_at_site',
-            'C13_importstr_is_lossy_decode', 'C13_importbin_exact', 'C13_resolution_deterministic',
+            'C13_importstr_is_lossy_decode', 'C13_lossy_of_valid_utf8', 'C13_nonvacuous_lossy', 'C13_importbin_exact', 'C13_resolution_deterministic',
             'C13_resolution_depends_only_on_existence', 'C13_nonvacuous', 'C13_nonvacuous_J_order',
             'C13_nonvacuous_hyps', 'C13_nonvacuous_failures']
 ALLOWED_AXIOMS = set()
@@ -231,31 +231,35 @@ WHY_TEXT = {
 
 
 def compare(model_res, obs):
-    """model prediction vs observation; returns None or a description"""
+    """model prediction vs observation; returns None or (key, description)"""
     f = model_res.split('\t')
     head = f[0]
     if head in ('MODELEXC', 'NOOUTPUT', 'TIMEOUT', 'CRASH') or head == 'PANIC':
-        return 'MACHINERY model answered ' + model_res[:200]
+        return ('MACHINERY', 'model answered ' + model_res[:200])
     tfield = [x for x in f if x.startswith('T=')]
     mtags = [vlib.uncps(x[1:]) for x in tfield[0][2:].split(';') if x] if tfield else []
     if mtags != obs['tags']:
-        return 'evaluation (trace) sequence: model %s / implementation %s' % (mtags, obs['tags'])
+        if sorted(mtags) == sorted(obs['tags']):
+            return ('evaluation-order', 'order of evaluations (trace lines): model %s / implementation %s' % (mtags, obs['tags']))
+        if len(set(obs['tags'])) < len(obs['tags']):
+            return ('evaluated-twice', 'a file is evaluated more than once: %s (model %s)' % (obs['tags'], mtags))
+        return ('evaluation-set', 'files evaluated (trace lines): model %s / implementation %s' % (mtags, obs['tags']))
     if head == 'OK':
         if obs['rc'] != 0:
-            return 'model succeeds, implementation exit %s: %s' % (obs['rc'], first_error(obs['err']))
+            return ('spurious-failure', 'model succeeds, implementation exit %s: %s' % (obs['rc'], first_error(obs['err'])))
         if obs['val'] != f[1]:
-            return 'value: model %s / implementation %s' % (f[1][:300], (obs['val'] or '')[:300])
+            return ('value', 'manifested value (resolution / std.thisFile / content): model %s / implementation %s' % (f[1][:300], (obs['val'] or '')[:300]))
         return None
     # failures
     if obs['rc'] != 1:
-        return 'model predicts failure %s, implementation exit %s' % ('/'.join(f[:3]), obs['rc'])
+        return ('missed-failure', 'model predicts failure %s, implementation exit %s' % ('/'.join(f[:3]), obs['rc']))
     if not obs['out_empty']:
-        return 'stdout not empty on failure'
+        return ('stdout-on-failure', 'stdout not empty on failure')
     err = obs['err']
     if head == 'FUEL':
-        return None if 'error: stack overflow' in err else 'model: unbounded descent (lazy import cycle); implementation: ' + first_error(err)
+        return None if 'error: stack overflow' in err else ('failure-class', 'model: unbounded descent (lazy import cycle); implementation: ' + first_error(err))
     if f[1] == 'INFREC':
-        return None if 'error: infinite recursion' in err else 'model: import cycle -> infinite recursion; implementation: ' + first_error(err)
+        return None if 'error: infinite recursion' in err else ('failure-class', 'model: import cycle -> infinite recursion; implementation: ' + first_error(err))
     if f[1] == 'MAIN':
         if f[2] == 'CANON' and 'failed to read' in err and 'Permission denied' in err:
             # glibc realpath resolves ".." lexically over the resolved prefix and needs no search permission on the
@@ -263,26 +267,26 @@ def compare(model_res, obs):
             return None
         for t in WHY_TEXT[f[2]]:
             if t not in err:
-                return 'main file load failure %s: diagnostic lacks %r: %s' % (f[2], t, first_error(err))
+                return ('failure-class', 'main file load failure %s: diagnostic lacks %r: %s' % (f[2], t, first_error(err)))
         if f[2] == 'LOAD' and ('failed to read' in err or 'does not exist' in err):
-            return 'main file load failure LOAD reported as i/o failure'
+            return ('failure-class', 'main file load failure LOAD reported as i/o failure')
         return None
     if f[1] == 'IMPORT':
         why, importer, pos, p = f[2], vlib.uncps(f[3]), int(f[4], 16), vlib.uncps(f[5])
         for t in WHY_TEXT[why]:
             if t not in err:
-                return 'import failure %s of %r: diagnostic lacks %r: %s' % (why, p, t, first_error(err))
+                return ('failure-class', 'import failure %s of %r: diagnostic lacks %r: %s' % (why, p, t, first_error(err)))
         if why == 'LOAD' and ('failed to read' in err or 'not found in search path' in err):
-            return 'import failure LOAD of %r reported as %s' % (p, first_error(err))
+            return ('failure-class', 'import failure LOAD of %r reported as %s' % (p, first_error(err)))
         if 'error: failed to import ' + jdebug(p) not in err:
-            return 'no "failed to import %s" diagnostic: %s' % (jdebug(p), first_error(err))
+            return ('failure-class', 'no "failed to import %s" diagnostic: %s' % (jdebug(p), first_error(err)))
         m = re.search(r'error: failed to import [^\n]*\n *--> ([^\n]*):(\d+):(\d+)\n', err)
         if not m:
-            return 'import failure without a site: ' + first_error(err)
+            return ('import-site', 'import failure without a site: ' + first_error(err))
         if m.group(1) != importer or int(m.group(2)) != pos + 2:
-            return 'import failure reported at %s:%s, import site is %s:%d' % (m.group(1), m.group(2), importer, pos + 2)
+            return ('import-site', 'import failure reported at %s:%s, import site is %s:%d' % (m.group(1), m.group(2), importer, pos + 2))
         return None
-    return 'MACHINERY unknown model answer ' + model_res[:100]
+    return ('MACHINERY', 'unknown model answer ' + model_res[:100])
 
 
 def jdebug(p):
@@ -795,14 +799,13 @@ def run_cases(run, cases, cli, model_exe, label, unpriv_ok):
             continue
         diff = compare(mr, obs)
         if diff:
-            if diff.startswith('MACHINERY'):
-                run.violation('machinery', diff, replay, concrete=False)
+            if diff[0] == 'MACHINERY':
+                run.violation('machinery', diff[1], replay, concrete=False)
             else:
                 # the model provably meets the property; the differing answer of the implementation is
                 # a resolution / caching / delivery behaviour the property determines
-                key = 'import-model-' + re.sub(r'[^a-z]+', '-', diff.split(':')[0].lower())[:40]
-                run.violation(key, 'implementation differs from the proved model: %s (argv -J %s %s, cwd %r)' % (
-                    diff, case['J'], case['main'], case['cwd']), replay)
+                run.violation('import-model-' + diff[0], 'implementation differs from the proved model: %s (argv -J %s %s, cwd %r)' % (
+                    diff[1], case['J'], case['main'], case['cwd']), replay)
             continue
         f = mr.split('\t')
         cls = f[0] if f[0] != 'ERR' else 'ERR_' + f[1] + ('_' + f[2] if f[1] in ('IMPORT', 'MAIN') else '')
